@@ -119,6 +119,7 @@ type Interp struct {
 	parRuns      []parRun
 	goThreads    []*ThreadTrace // go-statement mode: main thread + one trace per go statement
 	wgCount      map[string]int
+	pools        map[string][]Value
 	randReplay   []Nondet
 	randPos      int
 	model        Model
